@@ -262,40 +262,47 @@ def appendBufferOpen (w : World) (q : Cq) (d : Bytes) : World × Cq :=
   let (w, cap) := acquire w w.cs
   (w, pushChunk q (.mem d 0 (extendCap 0 cap d.length)) d.length)
 
+/-- the last chunk, if it is a MEM_CHUNK with at least `sz` bytes of room -/
+def lastMemFits (q : Cq) (sz : Nat) : Option (Bytes × Nat × Nat) :=
+  match q.chunks.getLast? with
+  | some (.mem old off cap) => if space old.length cap ≥ sz then some (old, off, cap) else none
+  | _ => none
+
+/-- chunkqueue_use_memory() with ckpt == cq->last: the bytes are in place -/
+def useExisting (q : Cq) (old : Bytes) (off cap : Nat) (data : Bytes) : Cq :=
+  let d := data.take (space old.length cap)
+  if d.length = 0 then q
+  else { q with chunks := setLast q.chunks (.mem (old ++ d) off cap), bytesIn := q.bytesIn + d.length }
+
+/-- chunkqueue_use_memory() after chunkqueue_get_memory() opened a new chunk
+    (buffer size `cap`) behind the checkpoint -/
+def useNew (w : World) (q : Cq) (cap : Nat) (data : Bytes) : World × Cq :=
+  let d := data.take (space 0 cap)
+  if d.length = 0 then (release w (.mem [] 0 cap), q)     -- remove the empty new chunk again
+  else match q.chunks.getLast? with
+    | some (.mem old off pcap) =>
+      if d.length > space old.length pcap then (w, pushChunk q (.mem d 0 cap) d.length)
+      else
+        -- fold the new data into the checkpoint chunk, drop the new chunk
+        (release w (.mem d 0 cap),
+         { q with chunks := setLast q.chunks (.mem (old ++ d) off (extendCap old.length pcap d.length)),
+                  bytesIn := q.bytesIn + d.length })
+    | _ => (w, pushChunk q (.mem d 0 cap) d.length)
+
+/-- size chunkqueue_get_memory() asks for: "pass 0 in len for mem at least half of chunk_buf_sz" -/
+def memReq (w : World) (req : Nat) : Nat := if req = 0 then w.cs / 2 else req
+
 /-- chunkqueue_get_memory(req) followed by chunkqueue_use_memory(ckpt = old
     last, n) where n = min(|data|, avail) bytes of `data` were stored by the
     caller.  Returns the available size reported by get_memory. -/
 def getUseMemory (w : World) (q : Cq) (req : Nat) (data : Bytes) : World × Cq × Nat :=
-  let sz := if req = 0 then w.cs / 2 else req
-  let fits : Option (Bytes × Nat × Nat) :=
-    match q.chunks.getLast? with
-    | some (.mem old off cap) => if space old.length cap ≥ sz then some (old, off, cap) else none
-    | _ => none
-  match fits with
-  | some (old, off, cap) =>
-    -- pointer into the existing last chunk; ckpt == cq->last
-    let avail := space old.length cap
-    let d := data.take avail
-    if d.length = 0 then (w, q, avail)
-    else (w, { q with chunks := setLast q.chunks (.mem (old ++ d) off cap),
-                      bytesIn := q.bytesIn + d.length }, avail)
+  match lastMemFits q (memReq w req) with
+  | some (old, off, cap) => (w, useExisting q old off cap data, space old.length cap)
   | none =>
-    let (w, cap) := acquire w sz
-    let avail := space 0 cap
-    let d := data.take avail
-    if d.length = 0 then
-      -- remove the empty new chunk again
-      (release w (.mem [] 0 cap), q, avail)
-    else
-      match q.chunks.getLast? with
-      | some (.mem old off pcap) =>
-        if d.length > space old.length pcap then (w, pushChunk q (.mem d 0 cap) d.length, avail)
-        else
-          -- fold the new data into the checkpoint chunk, drop the new chunk
-          (release w (.mem d 0 cap),
-           { q with chunks := setLast q.chunks (.mem (old ++ d) off (extendCap old.length pcap d.length)),
-                    bytesIn := q.bytesIn + d.length }, avail)
-      | _ => (w, pushChunk q (.mem d 0 cap) d.length, avail)
+    match acquire w (memReq w req) with
+    | (w', cap) =>
+      match useNew w' q cap data with
+      | (w'', q') => (w'', q', space 0 cap)
 
 /-- chunkqueue_append_file() / chunkqueue_append_file_fd() -/
 def appendFile (w : World) (q : Cq) (fid off len : Nat) (withFd : Bool) : World × Cq :=
@@ -412,24 +419,25 @@ def stealPartial (w : World) (dest : Cq) (c : Chunk) (n : Nat) : World × Cq :=
       ((if fd.isOpen then w.openFd fid else w), pushChunk dest (.file fid off (off + n) false fd) n)
     else (w, dest)
 
+/-- a complete chunk moves to dest; an empty one is dropped -/
+def moveChunk (w : World) (dest : Cq) (c : Chunk) : World × Cq :=
+  if c.rem ≠ 0 then (w, pushChunk dest c c.rem) else (release w c, dest)
+
+/-- the loop of chunkqueue_steal(): world, dest, remaining src chunks, bytes moved -/
 def stealLoop (w : World) (dest : Cq) : List Chunk → Nat → World × Cq × List Chunk × Nat
   | [], _ => (w, dest, [], 0)
   | c :: rest, len =>
-    let clen := c.rem
-    if len ≥ clen then
-      let (w, dest) := if clen ≠ 0 then (w, pushChunk dest c clen) else (release w c, dest)
-      if len - clen = 0 then (w, dest, rest, clen)
+    if len ≥ c.rem then
+      if len - c.rem = 0 then ((moveChunk w dest c).1, (moveChunk w dest c).2, rest, c.rem)
       else
-        let (w, dest, cs, moved) := stealLoop w dest rest (len - clen)
-        (w, dest, cs, clen + moved)
-    else
-      let (w, dest) := stealPartial w dest c len
-      (w, dest, c.adv len :: rest, len)
+        match stealLoop (moveChunk w dest c).1 (moveChunk w dest c).2 rest (len - c.rem) with
+        | (w', dest', cs, moved) => (w', dest', cs, c.rem + moved)
+    else ((stealPartial w dest c len).1, (stealPartial w dest c len).2, c.adv len :: rest, len)
 
 /-- chunkqueue_steal(dest, src, len) -/
 def steal (w : World) (dest src : Cq) (len : Nat) : World × Cq × Cq :=
-  let (w, dest, cs, moved) := stealLoop w dest src.chunks len
-  (w, dest, { src with chunks := cs, bytesOut := src.bytesOut + moved })
+  match stealLoop w dest src.chunks len with
+  | (w, dest, cs, moved) => (w, dest, { src with chunks := cs, bytesOut := src.bytesOut + moved })
 
 /-! ## temp files -/
 
@@ -538,42 +546,37 @@ def writeLast (w : World) (q : Cq) (d : Bytes) : World :=
   | some (.file fid _ len _ _) => w.pwrite fid len d
   | _ => w
 
-/-- the write loop of chunkqueue_append_mem_to_tempfile(), by recursion over
-    the write schedule (an exhausted schedule answers `ok`) -/
-def mtLoop (w : World) (q : Cq) (d : Bytes) : List WFault → World × Cq × Bool
-  | [] =>
-    match getAppendTempfile { w with wsched := [] } q with
-    | (w, q, false) => (w, q, false)
-    | (w, q, true) =>
-      if d.length = 0 then (w, q, true)
-      else if lastReadOnly q then
-        let (w, q, _) := tempfileErr w q false
-        (w, q, false)
-      else (writeLast w q d, growLast q d.length, true)
-  | f :: fs =>
-    match getAppendTempfile { w with wsched := f :: fs } q with
+/-- the write loop of chunkqueue_append_mem_to_tempfile(); every turn but the
+    last consumes a scheduled write result, so `wsched.length + 1` turns suffice -/
+def mtLoop : Nat → World → Cq → Bytes → World × Cq × Bool
+  | 0, w, q, _ => (w, q, false)
+  | fuel + 1, w, q, d =>
+    match getAppendTempfile w q with
     | (w, q, false) => (w, q, false)
     | (w, q, true) =>
       if d.length = 0 then (w, q, true)
       else
-        let w := { w with wsched := fs }
-        match effFault q f with
-        | .ok => (writeLast w q d, growLast q d.length, true)
+        let p := popW w
+        match effFault q p.2 with
+        | .ok => (writeLast p.1 q d, growLast q d.length, true)
         | .short n =>
-          if n ≥ d.length then (writeLast w q d, growLast q d.length, true)
-          else mtLoop (writeLast w q (d.take n)) (growLast q n) (d.drop n) fs
-        | .eintr => mtLoop w q d fs
+          if n ≥ d.length then (writeLast p.1 q d, growLast q d.length, true)
+          else mtLoop fuel (writeLast p.1 q (d.take n)) (growLast q n) (d.drop n)
+        | .eintr => mtLoop fuel p.1 q d
         | .enospc =>
-          let (w, q, retry) := tempfileErr w q true
-          if retry then mtLoop w q d fs else (w, q, false)
+          match tempfileErr p.1 q true with
+          | (w, q, true) => mtLoop fuel w q d
+          | (w, q, false) => (w, q, false)
         | .eio =>
-          let (w, q, retry) := tempfileErr w q false
-          if retry then mtLoop w q d fs else (w, q, false)
+          match tempfileErr p.1 q false with
+          | (w, q, true) => mtLoop fuel w q d
+          | (w, q, false) => (w, q, false)
 
-def firstIsMem (q : Cq) : Bool :=
-  match q.chunks with
+def firstIsMemL : List Chunk → Bool
   | c :: _ => c.isMem
   | [] => false
+
+def firstIsMem (q : Cq) : Bool := firstIsMemL q.chunks
 
 /-- gather iovecs from leading MEM chunks of src: at most `slots` chunks,
     at most `len` bytes -/
@@ -592,75 +595,78 @@ def leadingMem : List Chunk → List Chunk
   | [] => []
   | c :: rest => if c.isMem then c :: leadingMem rest else []
 
-/-- chunkqueue_steal_with_tempfiles() and the functions it is mutually
-    recursive with in C; `toTemp` is chunkqueue_to_tempfiles() (the C code
-    re-enters steal_with_tempfiles from there exactly once: see below) -/
+/-- result of chunkqueue_append_cqmem_to_tempfile(): `rc` = bytes taken from
+    src, or -1 -/
 structure SwOut where
   w : World
   dest : Cq
-  rc : Int         -- cqmem: bytes taken from src, or -1
+  rc : Int
 
-/-- chunkqueue_append_cqmem_to_tempfile_partial() -/
+/-- chunkqueue_append_cqmem_to_tempfile_partial(): the temp chunk (last) moves
+    to the front, the `wr` bytes it received leave the MEM chunks, the rest is
+    spilled by `toTemp` = chunkqueue_to_tempfiles() -/
 def cqmemPartial (toTemp : World → Cq → World × Cq × Bool) (w : World) (dest : Cq) (wr : Nat) : SwOut :=
   match dest.chunks.getLast? with
   | some c =>
-    let dest := { dest with chunks := dest.chunks.dropLast,
-                            bytesIn := dest.bytesIn - wr, bytesOut := dest.bytesOut - wr }
-    let (w, dest) := markWritten w dest wr
-    let dest := { dest with chunks := c :: dest.chunks }
-    let (w, dest, ok) := toTemp w dest
-    { w := w, dest := dest, rc := if ok then 0 else -1 }
+    let d1 : Cq := { dest with chunks := dest.chunks.dropLast,
+                               bytesIn := dest.bytesIn - wr, bytesOut := dest.bytesOut - wr }
+    let r := markWritten w d1 wr
+    let d2 : Cq := { r.2 with chunks := c :: r.2.chunks }
+    match toTemp r.1 d2 with
+    | (w, dest, ok) => { w := w, dest := dest, rc := if ok then 0 else -1 }
   | none => { w := w, dest := dest, rc := -1 }
+
+/-- accounting after `wr` bytes reached the temp file, the first `dlen` of the
+    iovecs being dest's own MEM chunks -/
+def cqmemWritten (toTemp : World → Cq → World × Cq × Bool) (w : World) (dest : Cq) (dlen wr : Nat) : SwOut :=
+  if dlen = 0 then { w := w, dest := dest, rc := wr }
+  else if wr < dlen then cqmemPartial toTemp w dest wr
+  else
+    let d1 : Cq := { dest with bytesIn := dest.bytesIn - dlen, bytesOut := dest.bytesOut - dlen }
+    let r := markWritten w d1 dlen
+    { w := r.1, dest := r.2, rc := (wr - dlen : Nat) }
+
+/-- the pwritev() of chunkqueue_append_cqmem_to_tempfile(): `dbytes` from
+    dest's MEM chunks, then `sbytes` from src, into the last (temp) chunk -/
+def cqmemWrite (toTemp : World → Cq → World × Cq × Bool) (w : World) (dest : Cq) (dbytes sbytes : Bytes) : SwOut :=
+  let total := dbytes ++ sbytes
+  let p := popW w
+  match effFault dest p.2 with
+  | .ok => cqmemWritten toTemp (writeLast p.1 dest total) (growLast dest total.length) dbytes.length total.length
+  | .short n =>
+    cqmemWritten toTemp (writeLast p.1 dest (total.take n)) (growLast dest (total.take n).length)
+      dbytes.length (total.take n).length
+  | .eintr => { w := p.1, dest := dest, rc := 0 }
+  | .enospc =>
+    match tempfileErr p.1 dest true with
+    | (w, dest, retry) => { w := w, dest := dest, rc := if retry then 0 else -1 }
+  | .eio =>
+    match tempfileErr p.1 dest false with
+    | (w, dest, retry) => { w := w, dest := dest, rc := if retry then 0 else -1 }
+
+/-- head of chunkqueue_append_cqmem_to_tempfile(): dest's own leading MEM
+    chunks join the iovec unless there are 16 or more of them or other chunks
+    follow (then everything is spilled first by `toTemp`).
+    Result: world, dest, ok, bytes of dest's iovecs, number of iovecs used -/
+def cqmemPre (toTemp : World → Cq → World × Cq × Bool) (w : World) (dest : Cq) :
+    World × Cq × Bool × Bytes × Nat :=
+  let lead := leadingMem dest.chunks
+  if (decide (lead.length ≥ 16) || decide (lead.length < dest.chunks.length)) && decide (lead.length ≥ 1) then
+    match toTemp w dest with
+    | (w, dest, ok) => (w, dest, ok, [], 0)
+  else (w, dest, true, absChunks w lead, lead.length)
 
 /-- chunkqueue_append_cqmem_to_tempfile() -/
 def cqmemToTempfile (toTemp : World → Cq → World × Cq × Bool)
     (w : World) (dest : Cq) (srcChunks : List Chunk) (len : Nat) : SwOut :=
-  let lead := leadingMem dest.chunks
-  let k := lead.length
-  let cNonNull := decide (k ≥ 16) || decide (k < dest.chunks.length)
-  -- (expecting only MEM_CHUNK if dest cq starts w/ MEM_CHUNK): else fallback
-  let pre : World × Cq × Bool × Bytes :=
-    if cNonNull && decide (k ≥ 1) then
-      let (w, dest, ok) := toTemp w dest
-      (w, dest, ok, [])
-    else (w, dest, true, absChunks w lead)
-  match pre with
-  | (w, dest, false, _) => { w := w, dest := dest, rc := -1 }
-  | (w, dest, true, dbytes) =>
-    let dlen := dbytes.length
-    let iovcnt0 := (if cNonNull && decide (k ≥ 1) then 0 else k)
-    let sbytes := gatherSrc srcChunks (16 - iovcnt0) len
-    if iovcnt0 == 0 && (match srcChunks with | c :: _ => !c.isMem | [] => true) then
-      { w := w, dest := dest, rc := 0 }
+  match cqmemPre toTemp w dest with
+  | (w, dest, false, _, _) => { w := w, dest := dest, rc := -1 }
+  | (w, dest, true, dbytes, iov0) =>
+    if iov0 == 0 && !firstIsMemL srcChunks then { w := w, dest := dest, rc := 0 }
     else
-    match getAppendTempfile w dest with
-    | (w, dest, false) => { w := w, dest := dest, rc := -1 }
-    | (w, dest, true) =>
-      let total := dbytes ++ sbytes
-      let (w, f) := popW w
-      let f := effFault dest f
-      let written : Option Nat :=
-        match f with
-        | .ok => some total.length
-        | .short n => some (min n total.length)
-        | _ => none
-      match written with
-      | some wr =>
-        let w := writeLast w dest (total.take wr)
-        let dest := growLast dest wr
-        if dlen ≠ 0 then
-          if wr < dlen then cqmemPartial toTemp w dest wr
-          else
-            let dest := { dest with bytesIn := dest.bytesIn - dlen, bytesOut := dest.bytesOut - dlen }
-            let (w, dest) := markWritten w dest dlen
-            { w := w, dest := dest, rc := (wr - dlen : Nat) }
-        else { w := w, dest := dest, rc := wr }
-      | none =>
-        match f with
-        | .eintr => { w := w, dest := dest, rc := 0 }
-        | _ =>
-          let (w, dest, retry) := tempfileErr w dest (f == .enospc)
-          { w := w, dest := dest, rc := if retry then 0 else -1 }
+      match getAppendTempfile w dest with
+      | (w, dest, false) => { w := w, dest := dest, rc := -1 }
+      | (w, dest, true) => cqmemWrite toTemp w dest dbytes (gatherSrc srcChunks (16 - iov0) len)
 
 /-- the loop of chunkqueue_steal_with_tempfiles(); `false` = error (-1) or
     fuel exhausted (the C loop would still be retrying) -/
@@ -675,15 +681,14 @@ def swLoop (toTemp : World → Cq → World × Cq × Bool) :
         let r := cqmemToTempfile toTemp w dest src.chunks len
         if r.rc < 0 then (r.w, r.dest, src, false)
         else
-          let clen := r.rc.toNat
-          let (w, src) := markWritten r.w src clen
-          if len - clen = 0 then (w, r.dest, src, true)
-          else swLoop toTemp fuel w r.dest src (len - clen)
+          let m := markWritten r.w src r.rc.toNat
+          if len - r.rc.toNat = 0 then (m.1, r.dest, m.2, true)
+          else swLoop toTemp fuel m.1 r.dest m.2 (len - r.rc.toNat)
       else
         let clen := min len c.rem
-        let (w, dest, src) := steal w dest src clen
-        if len - clen = 0 then (w, dest, src, true)
-        else swLoop toTemp fuel w dest src (len - clen)
+        let r := steal w dest src clen
+        if len - clen = 0 then (r.1, r.2.1, r.2.2, true)
+        else swLoop toTemp fuel r.1 r.2.1 r.2.2 (len - clen)
 
 /-- iterations the loop can need: every iteration consumes a scheduled write
     result, a byte of `len`, or a chunk of src -/
@@ -691,13 +696,11 @@ def swFuel (w : World) (src : Cq) (len : Nat) : Nat :=
   w.wsched.length + src.chunks.length + len + 2
 
 /-- chunkqueue_to_tempfiles() with the nested steal_with_tempfiles() call
-    given as `inner` -/
+    given as `inner`; what is left of the private copy of the queue is released -/
 def toTempfilesWith (inner : World → Cq → Cq → Nat → World × Cq × Cq × Bool)
     (w : World) (dest : Cq) : World × Cq × Bool :=
   let cqlen := dest.length.toNat
-  let src := dest
-  let dest := { dest with chunks := [], bytesIn := dest.bytesIn - cqlen }
-  match inner w dest src cqlen with
+  match inner w { dest with chunks := [], bytesIn := dest.bytesIn - cqlen } dest cqlen with
   | (w, dest, src, ok) => (releaseAll w src.chunks, dest, ok)
 
 /-- inside the nested call dest starts empty and only ever receives FILE
@@ -717,12 +720,9 @@ def stealWithTempfiles (w : World) (dest src : Cq) (len : Nat) : World × Cq × 
 
 /-- chunkqueue_append_mem_to_tempfile(): `true` = 0, `false` = -1 -/
 def appendMemToTempfile (w : World) (q : Cq) (d : Bytes) : World × Cq × Bool :=
-  let pre : World × Cq × Bool := if firstIsMem q then toTempfiles w q else (w, q, true)
-  match pre with
+  match (if firstIsMem q then toTempfiles w q else (w, q, true)) with
   | (w, q, false) => (w, q, false)
-  | (w, q, true) =>
-    let (w', q', ok) := mtLoop w q d w.wsched
-    (w', q', ok)
+  | (w, q, true) => mtLoop (w.wsched.length + 1) w q d
 
 /-! ## read -/
 
@@ -736,66 +736,68 @@ def openChunk (w : World) (fid len : Nat) (isTemp : Bool) : World × Fd × Bool 
     if isTemp then (w, .ro, true)
     else (w, .ro, decide (len ≤ (w.files fid).content.length))
 
+/-- one chunk of chunkqueue_peek_data(cq, buf[n], nowait = 0) with `acc`
+    gathered so far: the chunk (descriptor updated), the new `acc`, and
+    `false` for -1 -/
+def peekChunk (w : World) (n : Nat) (acc : Bytes) : Chunk → World × Chunk × Bytes × Bool
+  | .mem d off cap =>
+    (w, .mem d off cap,
+     if d.length - off = 0 then acc else acc ++ (d.drop off).take (min (d.length - off) (n - acc.length)), true)
+  | .file fid off len isTemp fd =>
+    match (if fd.isOpen then (w, fd, true) else openChunk w fid len isTemp) with
+    | (w, fd', false) => (w, .file fid off len isTemp fd', acc, false)
+    | (w, fd', true) =>
+      if len - off = 0 then (w, .file fid off len isTemp fd', acc, true)
+      else if (((w.files fid).content.drop off).take (min (len - off) (n - acc.length))).length = 0 then
+        (w, .file fid off len isTemp fd', acc, false)     -- pread() <= 0
+      else
+        (w, .file fid off len isTemp fd',
+         acc ++ ((w.files fid).content.drop off).take (min (len - off) (n - acc.length)), true)
+
 /-- chunkqueue_peek_data(cq, buf[n], nowait = 0): walks the chunks, opening
-    file chunks on the way; returns the chunks (descriptors updated), the
-    bytes gathered and `false` for -1 -/
+    file chunks on the way, until `n` bytes are gathered -/
 def peekLoop (w : World) (n : Nat) (acc : Bytes) : List Chunk → World × List Chunk × Bytes × Bool
   | [] => (w, [], acc, true)
   | c :: rest =>
-    let space := n - acc.length
-    match c with
-    | .mem d off _ =>
-      let hv := min (d.length - off) space
-      let acc := if d.length - off = 0 then acc else acc ++ (d.drop off).take hv
-      if acc.length = n then (w, c :: rest, acc, true)
+    match peekChunk w n acc c with
+    | (w, c', acc, false) => (w, c' :: rest, acc, false)
+    | (w, c', acc, true) =>
+      if acc.length = n then (w, c' :: rest, acc, true)
       else
-        let (w, rest, acc, ok) := peekLoop w n acc rest
-        (w, c :: rest, acc, ok)
-    | .file fid off len isTemp fd =>
-      let (w, fd', ok) := if fd.isOpen then (w, fd, true) else openChunk w fid len isTemp
-      let c' := Chunk.file fid off len isTemp fd'
-      if !ok then (w, c' :: rest, acc, false)
-      else if len - off = 0 then
-        if acc.length = n then (w, c' :: rest, acc, true)
-        else
-          let (w, rest, acc, ok) := peekLoop w n acc rest
-          (w, c' :: rest, acc, ok)
-      else
-        let want := min (len - off) space
-        let got := ((w.files fid).content.drop off).take want
-        if got.length = 0 then (w, c' :: rest, acc, false)     -- pread() <= 0
-        else
-          let acc := acc ++ got
-          if acc.length = n then (w, c' :: rest, acc, true)
-          else
-            let (w, rest, acc, ok) := peekLoop w n acc rest
-            (w, c' :: rest, acc, ok)
+        match peekLoop w n acc rest with
+        | (w, rest, acc, ok) => (w, c' :: rest, acc, ok)
 
 /-- chunkqueue_peek_data() -/
 def peekData (w : World) (q : Cq) (n : Nat) : World × Cq × Bytes × Bool :=
-  let (w, cs, acc, ok) := peekLoop w n [] q.chunks
-  (w, { q with chunks := cs }, acc, ok)
+  match peekLoop w n [] q.chunks with
+  | (w, cs, acc, ok) => (w, { q with chunks := cs }, acc, ok)
 
 /-- chunkqueue_read_data() -/
 def readData (w : World) (q : Cq) (n : Nat) : World × Cq × Option Bytes :=
-  let (w, q, acc, ok) := peekData w q n
-  if !ok || acc.length ≠ n then (w, q, none)
-  else
-    let (w, q) := markWritten w q n
-    (w, q, some acc)
+  match peekData w q n with
+  | (w, q, acc, ok) =>
+    if !ok || acc.length ≠ n then (w, q, none)
+    else ((markWritten w q n).1, (markWritten w q n).2, some acc)
 
 /-- chunkqueue_read_squash(): `false` = NULL -/
 def readSquash (w : World) (q : Cq) : World × Cq × Bool :=
   match q.chunks with
   | [.mem _ _ _] => (w, q, true)
   | _ =>
-    let cqlen := q.length.toNat
-    let (w, cap) := acquire w (cqlen + 1)
-    let (w, q, acc, ok) := peekData w q cqlen
-    if !ok then (release w (.mem [] 0 cap), q, false)
-    else
-      let w := releaseAll w q.chunks
-      (w, { q with chunks := [.mem acc 0 cap] }, true)
+    match acquire w (q.length.toNat + 1) with
+    | (w, cap) =>
+      match peekData w q q.length.toNat with
+      | (w, q, _, false) => (release w (.mem [] 0 cap), q, false)
+      | (w, q, acc, true) => (releaseAll w q.chunks, { q with chunks := [.mem acc 0 cap] }, true)
+
+/-- one source chunk of chunkqueue_append_cq_range(): `n` bytes from offset
+    `off` into the chunk are duplicated onto dst -/
+def copyRange (w : World) (dst : Cq) (c : Chunk) (off n : Nat) : World × Cq :=
+  match c with
+  | .file fid coff _ _ fd =>
+    ((if fd.isOpen then w.openFd fid else w),
+     pushChunk dst (.file fid (coff + off) (coff + off + n) false fd) n)
+  | .mem d coff _ => appendMem w dst ((d.drop (coff + off)).take n)
 
 /-- the copy loop of chunkqueue_append_cq_range() over (a snapshot of) the
     source chunks -/
@@ -803,18 +805,10 @@ def rangeLoop (w : World) (dst : Cq) : List Chunk → Nat → Nat → World × C
   | [], _, _ => (w, dst)
   | c :: rest, off, len =>
     if len = 0 then (w, dst)
+    else if off ≥ c.rem then rangeLoop w dst rest (off - c.rem) len
     else
-      let clen := c.rem
-      if off ≥ clen then rangeLoop w dst rest (off - clen) len
-      else
-        let n := min (clen - off) len
-        let (w, dst) :=
-          match c with
-          | .file fid coff _ _ fd =>
-            ((if fd.isOpen then w.openFd fid else w),
-             pushChunk dst (.file fid (coff + off) (coff + off + n) false fd) n)
-          | .mem d coff _ => appendMem w dst ((d.drop (coff + off)).take n)
-        rangeLoop w dst rest 0 (len - n)
+      rangeLoop (copyRange w dst c off (min (c.rem - off) len)).1
+        (copyRange w dst c off (min (c.rem - off) len)).2 rest 0 (len - min (c.rem - off) len)
 
 /-- chunkqueue_append_cq_range(dst, src, off, len), dst ≠ src -/
 def appendCqRange (w : World) (dst src : Cq) (off len : Nat) : World × Cq :=
